@@ -180,7 +180,17 @@ func (v objectValidator) keyMatchesNode(node schema.Node, value jbytes.Bytes, pa
 	if c := node.Constraint(constraint.TypesListConstraintType); c != nil {
 		for _, name := range c.(*constraint.TypesList).Names() {
 			typ, ok := v.rootSchema.TypesList()[name]
-			if ok && v.keyMatchesNode(typ.Schema().RootNode(), value, path) {
+			if !ok {
+				continue
+			}
+			alt := typ.Schema().RootNode()
+			// A key is a string: an alternative of another kind ({or: ["integer",
+			// "string"]}, which the checker accepts on a string example) never
+			// matches it, the other alternatives still can.
+			if alt.Constraint(constraint.TypesListConstraintType) == nil && alt.Type().String() != "string" {
+				continue
+			}
+			if v.keyMatchesNode(alt, value, path) {
 				return true
 			}
 		}
